@@ -370,17 +370,53 @@ end
 /-- fuel for bodies: the generated call graphs are acyclic and small -/
 def bodyFuel : Nat := 4000
 
-/-! ### the harness commands -/
+/-! ### the global `call_origin` and the efun layer above apply_low
 
+`call_origin` (src/apply.c) is a GLOBAL: `apply (fun, ob, n, where)` stores `where` into it and calls apply_low;
+apply_low copies it (`0` means ORIGIN_DRIVER) and ZEROES it.  f_call_other / call_all_other store ORIGIN_CALL_OTHER
+immediately before each of their apply_low calls — after the target has been resolved, because resolving a target may
+load an object, and loading applies `valid_object` on the master and `create` on the new object. -/
+
+/-- the origin apply_low works with: `local_call_origin = call_origin; if (!local_call_origin) ... = ORIGIN_DRIVER` -/
+def localOrigin (callOrigin : Nat) : Nat := if callOrigin == 0 then originDriver else callOrigin
+
+/-- apply_low as it is called: consumes and zeroes the global -/
+def applyLowG (w : World) (c : Cache) (callOrigin obProg ptr : Nat) (name : NameKey) : ApplyRes × Cache × Nat :=
+  let (r, c') := applyLow w c (localOrigin callOrigin) obProg ptr name
+  (r, c', 0)
+
+/-- the protocol seen from the global: an interleaved `apply (.., where)` (loading an object applies valid_object
+    and create; bodies may apply more), or one target of f_call_other / call_all_other -/
+inductive PStep where
+  | apply (origin p ptr : Nat) (name : NameKey)
+  | target (p ptr : Nat) (name : NameKey)
+  deriving Repr
+
+/-- one protocol step on (cache, call_origin): both kinds store their origin immediately before apply_low -/
+def pstep (w : World) (g : Cache × Nat) : PStep → ApplyRes × (Cache × Nat)
+  | .apply origin p ptr name => let (r, c, co) := applyLowG w g.1 origin p ptr name; (r, (c, co))
+  | .target p ptr name => let (r, c, co) := applyLowG w g.1 originCallOther p ptr name; (r, (c, co))
+
+def psteps (w : World) (g : Cache × Nat) : List PStep → Cache × Nat
+  | [] => g
+  | st :: rest => psteps w (pstep w g st).2 rest
+
+/-- one loaded object per program file (named objects); the harness' labels (`o1`, `=p3`) name them -/
 structure Obj where
-  oid : String
   prog : Nat
   vars : List Int
 
 structure St where
   cache : Cache := Cache.empty
+  callOrigin : Nat := 0
   objs : List Obj := []
-  out : List Ev := []          -- newest first
+  labels : List (String × Nat) := []     -- label -> program of the object
+  out : List Ev := []                    -- newest first
+
+def St.obj? (s : St) (p : Nat) : Option Obj := s.objs.find? (·.prog == p)
+
+def St.setVars (s : St) (p : Nat) (vs : List Int) : St :=
+  { s with objs := s.objs.map (fun o => if o.prog == p then { o with vars := vs } else o) }
 
 inductive Origin where
   | co | com | drv | cot | rco | hb
@@ -395,37 +431,154 @@ def Origin.code : Origin → Nat
 def Origin.str : Origin → String
   | .co => "co" | .com => "com" | .drv => "drv" | .cot => "cot" | .rco => "rco" | .hb => "hb"
 
+/-- what one call by name did -/
+inductive CallRes where
+  | crash
+  | fail                  -- apply_low returned 0
+  | ok (tag : String)     -- the body ran and returned its tag
+  | error                 -- the body raised an LPC error
+  | noobj
+  deriving Repr, BEq, DecidableEq
+
+/-- apply_low (with the global as it stands) on the object of program p, then the body -/
+def callFn (w : World) (s : St) (p ptr : Nat) (key : NameKey) : CallRes × St :=
+  match s.obj? p with
+  | none => (.noobj, s)
+  | some ob =>
+    let (r, c, co) := applyLowG w s.cache s.callOrigin p ptr key
+    let s := { s with cache := c, callOrigin := co }
+    match r with
+    | .crash => (.crash, s)
+    | .fail => (.fail, s)
+    | .call q k fio vio =>
+      let run := execBody w p bodyFuel { prog := q, fidx := k, fio := fio, vio := vio } ob.vars s.out
+      let tag := ((w.progs[q]?.bind (fun Q => (Q.ft[k]?).map (fun e => s!"\"{Q.name}:{e.nameStr}\""))).getD "?")
+      let s : St := { (s.setVars p run.vars) with out := run.evs }
+      match run.out with
+      | .crash => (.crash, s)
+      | .error => (.error, s)
+      | .ok => (.ok tag, s)
+
+/-- `apply (fun, ob, n, where)` -/
+def applyFn (w : World) (s : St) (origin p ptr : Nat) (key : NameKey) : CallRes × St :=
+  callFn w { s with callOrigin := origin } p ptr key
+
+/-- load_object of program p's file unless its object exists: the inherited files first (in the order of the inherit
+    statements, each loaded when the compiler first misses it), then the object; for every new object the master's
+    `valid_object` is applied (an apply_low that finds nothing here, but consumes the global) and then `create` -/
+def loadObj (w : World) (createKey : NameKey) : Nat → St → Nat → St
+  | 0, s, _ => s
+  | fuel + 1, s, p =>
+    match s.obj? p with
+    | some _ => s
+    | none =>
+      match w.progs[p]? with
+      | none => s
+      | some P =>
+        let s : St := P.inherit.foldl (fun s ih => loadObj w createKey fuel s ih.prog) s
+        let s : St := { s with objs := s.objs ++ [{ prog := p, vars := List.replicate P.nvt 0 }] }
+        -- apply_master_ob (valid_object): call_origin = ORIGIN_DRIVER; apply_low (zeroes it)
+        let s : St := { s with callOrigin := 0 }
+        -- call_create: apply (create, ob, 0, ORIGIN_DRIVER)
+        (applyFn w s originDriver p createKey createKey).2
+
+def St.vars (s : St) (label : String) (p : Nat) : St :=
+  match s.obj? p with
+  | some ob => { s with out := Ev.vars label ob.vars :: s.out }
+  | none => s
+
 /-- one `call <origin> <oid> <fn>` command -/
 def doCall (w : World) (s : St) (o : Origin) (oid : String) (fn : String) (key : NameKey) : St :=
-  let evs := Ev.call o.str oid fn :: s.out
-  match s.objs.find? (·.oid == oid) with
-  | none => { s with out := Ev.ret "!noobj" :: evs }
-  | some ob =>
+  let s := { s with out := Ev.call o.str oid fn :: s.out }
+  match (s.labels.find? (·.1 == oid)).map (·.2) with
+  | none => { s with out := Ev.ret "!noobj" :: s.out }
+  | some p =>
     -- `com` passes a malloc'ed copy of the name: another pointer, the same text
     let ptr := if o == .com then key + 1000003 else key
-    let (r, c) := applyLow w s.cache o.code ob.prog ptr key
-    let s := { s with cache := c }
+    -- co / com go through the LPC caller: apply (do_call, caller, .., ORIGIN_DRIVER) consumes the global, then
+    -- f_call_other stores ORIGIN_CALL_OTHER right before its apply_low
+    let (r, s) := applyFn w { s with callOrigin := 0 } o.code p ptr key
+    let swept := o == .rco
     match r with
-    | .crash => { s with out := Ev.line "crash model-out-of-range" :: evs }
-    | .fail =>
-      { s with out := Ev.vars oid ob.vars :: Ev.ret (if o == .rco then "swept" else "!no") :: evs }
-    | .call q k fio vio =>
-      let run := execBody w ob.prog bodyFuel { prog := q, fidx := k, fio := fio, vio := vio } ob.vars evs
-      let tag := ((w.progs[q]?.bind (fun Q => (Q.ft[k]?).map (fun e => s!"\"{Q.name}:{e.nameStr}\""))).getD "?")
-      let objs := s.objs.map (fun x => if x.oid == oid then { x with vars := run.vars } else x)
-      match run.out with
-      | .crash => { s with objs, out := Ev.line "crash model-out-of-range" :: run.evs }
-      | .error =>
-        { s with objs, out := Ev.vars oid run.vars :: Ev.ret (if o == .rco then "swept" else "!err") :: run.evs }
-      | .ok =>
-        { s with objs, out := Ev.vars oid run.vars :: Ev.ret (if o == .rco then "swept" else tag) :: run.evs }
+    | .crash => { s with out := Ev.line "crash model-out-of-range" :: s.out }
+    | .noobj => { s with out := Ev.ret "!noobj" :: s.out }
+    | .fail => (({ s with out := Ev.ret (if swept then "swept" else "!no") :: s.out }).vars oid p)
+    | .error => (({ s with out := Ev.ret (if swept then "swept" else "!err") :: s.out }).vars oid p)
+    | .ok tag => (({ s with out := Ev.ret (if swept then "swept" else tag) :: s.out }).vars oid p)
+
+/-- an element of an array target / a string target -/
+inductive Target where
+  | obj (label : String)          -- an object the harness holds
+  | path (name : String)          -- a file name; `none` program = no such file
+  | other                         -- neither object nor string: skipped
+  deriving Repr, BEq
+
+/-- call_all_other: for every element resolve it (a string is find_or_load_object'ed: may load), then
+    `call_origin = ORIGIN_CALL_OTHER; apply_low`; destructed / unloadable / other elements leave 0 -/
+def callAllOther (w : World) (createKey : NameKey) (progOf : String → Option Nat) (ptr : Nat) (key : NameKey) :
+    List Target → St → List String → (List String × St × Bool)
+  | [], s, acc => (acc.reverse, s, true)
+  | t :: rest, s, acc =>
+    let resolved : Option Nat × St :=
+      match t with
+      | .obj l => ((s.labels.find? (·.1 == l)).map (·.2), s)
+      | .path n =>
+        match progOf n with
+        | none => (none, s)
+        | some p => (some p, loadObj w createKey (w.progs.length + 1) s p)
+      | .other => (none, s)
+    match resolved with
+    | (none, s) => callAllOther w createKey progOf ptr key rest s ("0" :: acc)
+    | (some p, s) =>
+      let (r, s) := applyFn w s originCallOther p ptr key
+      match r with
+      | .ok tag => callAllOther w createKey progOf ptr key rest s (tag :: acc)
+      | .fail | .noobj => callAllOther w createKey progOf ptr key rest s ("0" :: acc)
+      | .error => (acc.reverse, s, false)
+      | .crash => (acc.reverse, { s with out := Ev.line "crash model-out-of-range" :: s.out }, false)
+
+def Target.label : Target → String
+  | .obj l => l
+  | .path n => "=" ++ n
+  | .other => "0"
+
+def targetProg (s : St) (progOf : String → Option Nat) : Target → Option Nat
+  | .obj l => (s.labels.find? (·.1 == l)).map (·.2)
+  | .path n => progOf n
+  | .other => none
+
+/-- `call coa <elems> <fn>` / `call cos =<path> <fn>` -/
+def doCallTargets (w : World) (createKey : NameKey) (progOf : String → Option Nat) (s : St) (isArray : Bool)
+    (ts : List Target) (fn : String) (key : NameKey) : St :=
+  let shown := ",".intercalate (ts.map Target.label)
+  let s := { s with out := Ev.call (if isArray then "coa" else "cos") shown fn :: s.out, callOrigin := 0 }
+  let showVars (s : St) : St :=
+    ts.foldl (fun s t => match targetProg s progOf t with | some p => s.vars t.label p | none => s) s
+  if isArray then
+    let (res, s, ok) := callAllOther w createKey progOf key key ts s []
+    if ok then showVars { s with out := Ev.ret ("({" ++ ",".intercalate res ++ "})") :: s.out }
+    else showVars { s with out := Ev.ret "!err" :: s.out }
+  else
+    match ts with
+    | [.path n] =>
+      match progOf n with
+      | none => { s with out := Ev.ret "!err" :: Ev.err "call_other() couldn't find object" :: s.out }
+      | some p =>
+        let s := loadObj w createKey (w.progs.length + 1) s p
+        let (r, s) := applyFn w s originCallOther p key key
+        match r with
+        | .ok tag => showVars { s with out := Ev.ret tag :: s.out }
+        | .fail | .noobj => showVars { s with out := Ev.ret "0" :: s.out }
+        | .error => showVars { s with out := Ev.ret "!err" :: s.out }
+        | .crash => { s with out := Ev.line "crash model-out-of-range" :: s.out }
+    | _ => { s with out := Ev.line "bad-target" :: s.out }
 
 /-- `call hb <oid> ..`: one backend tick for an object with its heart beat on — call_function (prog, prog->heart_beat):
     nothing when there is no `heart_beat`, or its slot is NAME_UNDEFINED; else setup_new_frame on that slot.  No apply,
     no cache, no visibility test. -/
 def doHeartBeat (w : World) (s : St) (oid fn : String) : St :=
   let evs := Ev.call "hb" oid fn :: s.out
-  match s.objs.find? (·.oid == oid) with
+  match (s.labels.find? (·.1 == oid)).bind (fun l => s.obj? l.2) with
   | none => { s with out := Ev.ret "!noobj" :: evs }
   | some ob =>
     let quiet : St := { s with out := Ev.vars oid ob.vars :: Ev.ret "ticked" :: evs }
@@ -444,18 +597,18 @@ def doHeartBeat (w : World) (s : St) (oid fn : String) : St :=
               | none => { s with out := Ev.line "crash model-out-of-range" :: evs }
               | some fr =>
                 let run := execBody w ob.prog bodyFuel fr ob.vars evs
-                let objs := s.objs.map (fun x => if x.oid == oid then { x with vars := run.vars } else x)
+                let s := s.setVars ob.prog run.vars
                 match run.out with
-                | .crash => { s with objs, out := Ev.line "crash model-out-of-range" :: run.evs }
-                | _ => { s with objs, out := Ev.vars oid run.vars :: Ev.ret "ticked" :: run.evs }
+                | .crash => { s with out := Ev.line "crash model-out-of-range" :: run.evs }
+                | _ => { s with out := Ev.vars oid run.vars :: Ev.ret "ticked" :: run.evs }
 
 /-- `evict <oid> <fn>`: a driver apply of a name that does not exist anywhere and whose pointer hashes to
     the slot of (<oid>'s program, <fn>): same `ptr`, fresh name -/
 def doEvict (w : World) (s : St) (oid fn : String) (key : NameKey) (fresh : NameKey) : St :=
-  match s.objs.find? (·.oid == oid) with
+  match (s.labels.find? (·.1 == oid)).map (·.2) with
   | none => s
-  | some ob =>
-    let (_, c) := applyLow w s.cache originDriver ob.prog key fresh
-    { s with cache := c, out := Ev.line s!"evict {oid} {fn} done" :: s.out }
+  | some p =>
+    let (_, c) := applyLow w s.cache originDriver p key fresh
+    { s with cache := c, callOrigin := 0, out := Ev.line s!"evict {oid} {fn} done" :: s.out }
 
 end NV.C07
